@@ -1,76 +1,72 @@
 (* C11 — the problem read does not depend on the file's physical layout (line layer).
-   Headline theorems only; the proofs are in Proofs/LinesProofs.v, the model in Model/Lines.v.
+   Headline theorems only; the proofs are in Proofs/LinesProofs.v, the model in Model/Lines.v
+   (read_front_matters, read_data as of /repo commit 2db4963, is_comment, _clean_line, str.expandtabs).
 
    A file is the list of its raw lines as MontePy iterates them (body + LF or CR LF).
-     read_lines w f      what the CURRENT read_front_matters / read_data make of it, reduced to its logical content:
+     read_lines w f      what read_front_matters / read_data make of it, reduced to its logical content:
                          (title, [(block type, words of the data of the input)], UnsupportedFeature or not)
                          words = maximal runs of non-blank characters before the first '$' of every line that is not a
-                         C comment line, without the words "&".  Not part of it: start line numbers, comment texts,
+                         C comment line, without the words "&".  NOT part of it: start line numbers, comment texts,
                          blank runs, tabs, line ends, the message block, how the words are spread over lines.
-     read_lines_fix w f  the same for read_data carrying proposed repair C11-1 (continue_input is only updated on
-                         lines that are not comments: no '$' on the line and, trailing blanks dropped, " &" at its end).
-     layout_step         one elementary re-layout (LinesProofs.data_step: DS_amp, DS_comment_after/_before/_text,
-                         DS_dollar, DS_trail, DS_tab, DS_eol, DS_blank; LS_front: message block / title line end).
-     layout_equiv w      reflexive, symmetric, transitive closure over files within the line limit w
-                         (the LF counts: MontePy cuts every line at w characters including it).               *)
+     layout_step         one elementary re-layout (LinesProofs.data_step):
+                           DS_amp             continuation by >= 5 leading blanks  <->  trailing " &" + any indentation
+                           DS_comment_after / _before / _text   a C comment line (C in columns 1-5) next to a non-blank
+                                              line, also between an '&' line and its continuation; its text
+                           DS_dollar          a '$' comment at the end of a data line not continued by '&'
+                           DS_trail           blanks at the end of a data line (also after an '&')
+                           DS_tab             a tab <-> the blanks up to the next multiple of 8 columns
+                           DS_eol             LF <-> CR LF
+                           DS_blank           what a blank line consists of
+                         and LS_front: message block added / removed / changed, line end of the title line.
+     layout_equiv w      reflexive, symmetric, transitive closure over files whose lines have at most w columns
+                         (tabs expanded, line end not counted).
+   Side conditions of the steps exclude: vertical format ('#' in columns 1-5), lines whose first word is a lone
+   c/C outside columns 1-5 or that have a c in column 6 (is_comment takes them for comments, see 6), '&' followed
+   by a '$' comment (deliberately not a continuation in MontePy), a continuation line that starts with '&'.   *)
 From Coq Require Import List String Ascii Arith Bool.
 From MPV Require Import Model.Wire Model.Lines Gen.LexerFlags Proofs.LinesProofs.
 Import ListNotations.
 Open Scope string_scope.
 
-(* 1. full strength, for the reader with repair C11-1: every layout in the closure reads as the same title,
-      the same inputs (block type, words) in the same order, and the same error *)
-Theorem C11_layout_repaired : forall w f f',
-  layout_equiv w f f' -> read_lines_fix w f = read_lines_fix w f'.
+(* 1. every layout in the closure reads as the same title, the same inputs (block type, words) in the same order,
+      and the same error *)
+Theorem C11_layout : forall w f f',
+  layout_equiv w f f' -> read_lines w f = read_lines w f'.
 Proof. exact layout_equiv_sound. Qed.
-Print Assumptions C11_layout_repaired.
+Print Assumptions C11_layout.
 
-(* 2. the current code does not have the property ... *)
-Theorem C11_layout_refuted : exists w f f',
-  layout_equiv w f f' /\ read_lines w f <> read_lines w f'.
-Proof. exact layout_refuted. Qed.
-Print Assumptions C11_layout_refuted.
+(* one step, with the hypotheses spelled out *)
+Theorem C11_layout_step : forall w f f', layout_step f f' ->
+  within_limit w f = true -> within_limit w f' = true -> read_lines w f = read_lines w f'.
+Proof. exact layout_step_sound. Qed.
+Print Assumptions C11_layout_step.
 
-(* ... for four reasons, each a single elementary step between two files within the limit (w = 128):
-   blanks after the '&'; a comment line between the '&' line and its continuation; a comment line ending in " &";
-   a '$' comment ending in " &" *)
-Theorem C11_refuted_blanks_after_amp : breaks wit1 wit1'.
-Proof. exact wit1_breaks. Qed.
-Print Assumptions C11_refuted_blanks_after_amp.
-
-Theorem C11_refuted_comment_after_amp : breaks wit2 wit2'.
-Proof. exact wit2_breaks. Qed.
-Print Assumptions C11_refuted_comment_after_amp.
-
-Theorem C11_refuted_comment_ends_amp : breaks wit3 wit3'.
-Proof. exact wit3_breaks. Qed.
-Print Assumptions C11_refuted_comment_ends_amp.
-
-Theorem C11_refuted_dollar_ends_amp : breaks wit4 wit4'.
-Proof. exact wit4_breaks. Qed.
-Print Assumptions C11_refuted_dollar_ends_amp.
-
-(* 3. ... except on files where none of the four occurs (amp_tidy, executable, Model/Lines.v): there the current
-      reader is the repaired one, and the closure theorem holds for it *)
-Theorem C11_tidy_is_repaired : forall w f, amp_tidy w f = true -> read_lines w f = read_lines_fix w f.
-Proof. exact tidy_reads_alike. Qed.
-Print Assumptions C11_tidy_is_repaired.
-
-Theorem C11_layout_partial : forall w f f',
-  layout_equiv w f f' -> amp_tidy w f = true -> amp_tidy w f' = true ->
-  read_lines w f = read_lines w f'.
-Proof. exact layout_equiv_partial. Qed.
-Print Assumptions C11_layout_partial.
-
-(* non-vacuity: two layouts of a two-block file, three steps apart ('&' continuation, a comment line with CR LF),
-   both tidy and within the limit, and what they read as *)
+(* non-vacuity: two layouts of a two-block file, two steps apart ('&' continuation starting in column 2,
+   a comment line with CR LF after the blank line), and what they read as *)
 Example C11_layout_nonvacuous :
-  layout_equiv 128 ex_a ex_d /\ amp_tidy 128 ex_a = true /\ amp_tidy 128 ex_d = true /\
+  layout_equiv 128 ex_a ex_d /\
   read_lines 128 ex_d = (Some "t", [(0, ["2"; "0"; "1"; "-2"; "imp:n=1"]); (1, ["1"; "px"; "0"])], None).
-Proof. exact (conj ex_equiv (conj (proj1 ex_tidy) (conj (proj2 ex_tidy) ex_value))). Qed.
+Proof. exact (conj ex_equiv ex_value). Qed.
 Print Assumptions C11_layout_nonvacuous.
 
-(* 4. tabs: str.expandtabs(8) on a line is MCNP's rule S1, column by column; a tab is the blanks up to the next
+(* the four single steps across which the reader before commit 2db4963 gave different inputs (blanks after the
+   '&'; a comment line between the '&' line and a continuation in columns 1-5; a comment line ending in " &";
+   a '$' comment ending in " &"), and the '&' in the last allowed column *)
+Example C11_layout_former_defects :
+  same_reading wit1 wit1' /\ same_reading wit2 wit2' /\ same_reading wit3 wit3' /\ same_reading wit4 wit4' /\
+  read_lines 128 wit1' = (Some "t", [(0, ["2"; "0"; "1"; "-2"; "imp:n=1"])], None) /\
+  read_lines 128 wit2' = (Some "t", [(0, ["2"; "0"; "1"; "-2"; "imp:n=1"])], None) /\
+  read_lines 128 wit3' = (Some "t", [(0, ["1"; "0"; "-1"]); (0, ["2"; "0"; "1"])], None) /\
+  read_lines 128 wit4' = (Some "t", [(0, ["1"; "0"; "-1"]); (0, ["2"; "0"; "1"])], None).
+Proof. exact (conj wit1_same (conj wit2_same (conj wit3_same (conj wit4_same wit_values)))). Qed.
+Print Assumptions C11_layout_former_defects.
+
+Example C11_layout_last_column :
+  layout_equiv 10 edge_a edge_b /\ read_lines 10 edge_b = (Some "t", [(0, ["1"; "0"; "-1"; "2"; "3"])], None).
+Proof. exact edge_same. Qed.
+Print Assumptions C11_layout_last_column.
+
+(* 2. tabs: str.expandtabs(8) on a line is MCNP's rule S1, column by column; a tab is the blanks up to the next
       multiple of 8 columns *)
 Theorem C11_tabs : forall x, no_eol x = true ->
   expandtabs TABSIZE (x ++ String nl "") = spec_expand_from 0 x ++ String nl "".
@@ -87,13 +83,13 @@ Example C11_tabs_nonvacuous :
   /\ tab_fill "1234567" = 1 /\ tab_fill "12345678" = 8.
 Proof. repeat split; reflexivity. Qed.
 
-(* 5. line ends: _clean_line gives the same line for LF and CR LF *)
+(* 3. line ends: _clean_line gives the same line for LF and CR LF *)
 Theorem C11_eol : forall x, no_eol x = true -> clean_line (x ++ crlf) = clean_line (x ++ lf).
 Proof. exact clean_line_crlf. Qed.
 Print Assumptions C11_eol.
 
-(* 6. comment lines: on printable lines is_comment is rule S5 plus the lines late_c describes (a c in column 6,
-      or a lone c beyond it) *)
+(* 4. comment lines: on printable lines is_comment is rule S5 plus the lines late_c describes (a c in column 6,
+      or a lone c beyond it): is_comment alone is NOT rule S5 ... *)
 Theorem C11_comment_rule : forall x, all_plain x = true ->
   is_comment (x ++ lf) = orb (spec_comment x) (late_c x).
 Proof. exact is_comment_S5. Qed.
@@ -113,15 +109,18 @@ Example C11_comment_rule_nonvacuous :
   all_plain "cz 5" = true /\ late_c "cz 5" = false /\ spec_comment "cz 5" = false.
 Proof. repeat split; reflexivity. Qed.
 
-(* 7. the model's loops are one transducer over line classes (what the closure proof works on) *)
+(* ... which is harmless for read_data: such a line has columns 1-5 blank, so it continues the input either way,
+   and since 2db4963 it takes part in the '&' test (C11_layout's steps simply do not touch such lines) *)
+
+(* 5. the model's loop is one transducer over line classes (what the closure proof works on) *)
 Theorem C11_reader_is_transducer : forall w rc ls lineno bc bt cont hnc raw,
   lift (rd_loop w rc ls lineno bc bt cont hnc raw)
-  = arun false (map (line_class w) ls)
+  = arun (map (line_class w) ls)
          (mkA bc bt cont hnc (nonempty raw) (flat_map line_words raw) (negb rc) false).
 Proof. exact rd_loop_sim. Qed.
 Print Assumptions C11_reader_is_transducer.
 
-(* 8. token level (not modelled as automata): facts read off the lexer and parser classes on every run
+(* 6. token level (not modelled as automata): facts read off the lexer and parser classes on every run
       (Gen/LexerFlags.v) — every lexer ignores case; white space of any length is one SPACE token, '$' comments
       run to the end of the line; padding absorbs SPACE, comments and '&'; key and value are separated by padding,
       '=' or both; the constants are the model's.  Finite domains, decided by evaluation. *)
